@@ -67,7 +67,13 @@ impl QBNumberCast<i64> for f32 {
 
 impl QBNumberCast<f32> for f64 {
     fn try_cast(&self) -> Result<f32, LintError> {
-        Ok(*self as f32)
+        let f = *self as f32;
+        if f.is_infinite() && self.is_finite() {
+            // a finite double beyond the range of single
+            Err(LintError::Overflow)
+        } else {
+            Ok(f)
+        }
     }
 }
 
